@@ -120,3 +120,29 @@ Proof.
   intros c deck g ops o Hc Hl Hcr. apply refused_changes_nothing. apply (Good_reachable c deck g ops Hc Hl Hcr).
 Qed.
 Print Assumptions C04_refused_operation_changes_nothing.
+
+(* what a seat has done is something it had been offered: after an accepted action other than pass, the action
+   recorded for the acting seat (did_action) was in its offer before — a bet or raise request may end as an
+   all-in, a raise request to the level of the wager to match as a call, each only when that action was on
+   offer; pay is never on offer and never accepted *)
+From PF Require Import ProofsDid.
+Theorem C04_what_a_seat_did_was_on_offer :
+  forall c deck g ops,
+    cfg_ok c -> create c deck = (g, Ok) ->
+    let s := run g ops in
+    forall i a x, (i < nplayers s)%nat -> a <> APass -> snd (do_act s i a x) = Ok ->
+    forall b, action_of_did (p_did (get_p (fst (do_act s i a x)) i)) = Some b -> allowed s i b = true.
+Proof.
+  intros c deck g ops Hc Hcr s i a x Hi Ha Hok b Hb.
+  destruct (reachable_inv c deck g ops Hc Hcr) as [HI HO]. exact (did_was_offered s i a x HI HO Hi Ha Hok b Hb).
+Qed.
+Print Assumptions C04_what_a_seat_did_was_on_offer.
+
+(* do_act is the action part of step *)
+Theorem C04_do_act_is_the_step :
+  forall g i a x, (i < nplayers g)%nat -> step g (OAct (Some i) a x) = do_act g i a x.
+Proof.
+  intros g i a x Hi. cbn [step]. replace (Nat.ltb i (nplayers g)) with true by (symmetry; apply Nat.ltb_lt; exact Hi).
+  cbn [negb]. destruct a; reflexivity.
+Qed.
+Print Assumptions C04_do_act_is_the_step.
